@@ -53,6 +53,8 @@ pub struct Alpha {
     pub change_gens: Vec<i8>,
     /// custom items carried by datagrams (first src / Gossip only)
     pub items: Vec<Vec<u8>>,
+    /// datagrams carrying SEVERAL custom items (first src only)
+    pub item_sets: Vec<Vec<Vec<u8>>>,
     /// datagrams addressed to these generations of the own address too
     /// (stale destinations)
     pub stale_dst_gens: Vec<i8>,
@@ -231,6 +233,11 @@ impl Spec for CoreSpec {
                     }
                 }
                 if si == 0 {
+                    for set in &a.item_sets {
+                        if let Some(e) = self.data(*src, *inc, me, *kind, &[], set, &snap) {
+                            evs.push(e);
+                        }
+                    }
                     for it in &a.items {
                         if let Some(e) = self.data(*src, *inc, me, *kind, &[], std::slice::from_ref(it), &snap) {
                             evs.push(e);
